@@ -56,7 +56,8 @@ NUMERIC_VALUES = [(s, v) for s in NUMERIC for v in NUMERIC[s]]
 SHAPE_NAMES = list(SHAPES)
 ALL_VALUES = [(s, v) for s in SHAPES for v in SHAPES[s]]
 
-EXPR_VALUES = ["0", "7", "-3", "2.5", "99999999999999999999", "3000000", "-3000000", "1e3", "1e400", "9e999999", "0.0", ""]
+EXPR_VALUES = ["0", "7", "-3", "2.5", "99999999999999999999", "3000000", "-3000000", "1e3", "1e400", "9e999999", "0.0", "",
+               "2e7", "5E-5", "20000000.5", "\u0663"]
 EXPR_BINOPS = ["+", "-", "*", "/", "div", "mod", "^", "e", "round", "<", ">", "<=", ">=", "!=", "<>", "=", "and", "or"]
 EXPR_UNOPS = ["-", "+", "not", "abs", "sin", "cos", "asin", "acos", "tan", "atan", "exp", "ln", "ceil", "floor", "trunc"]
 TIME_FORMATS = ["Y", "xrY", "xrU", "xrz", "xrj", "U", "c", "r", "D d M y", "\"q\"", "\\", "%", "xr", "W t L N w z", "a A g h G H i s",
